@@ -1,6 +1,7 @@
 package eval
 
 import (
+	"fmt"
 	"ti/base"
 	"ti/context"
 	"ti/parser"
@@ -24,7 +25,14 @@ func (d *Comma) Evaluation(
 ) (err error) {
 
 	var tArray []*base.T
-	tArray = append(tArray, p.GetLastEvaluatedTPointer().(*base.T))
+
+	// a comma with no value in front of it (x[0]=,1)
+	firstT, ok := p.GetLastEvaluatedTPointer().(*base.T)
+	if !ok || firstT == nil {
+		return fmt.Errorf("unexpected ','")
+	}
+
+	tArray = append(tArray, firstT)
 
 	for {
 		nextT, err := p.Read()
